@@ -115,12 +115,15 @@ def _gen_formula(rng):
                     labels.append("w({},{})")
                 f["groups"].append({"op": "block", "ranges": ranges,
                                     "label": rng.choice(labels)})
+    if rng.random() < 0.1:
+        # python's True is the integer 1: a literal like any other
+        f["bool_literals"] = True
     if rng.random() < 0.15:
         # insertions that the formula refuses, somewhere in its history:
         # what is stored afterwards is the formula without them
         f["refused"] = [[rng.randint(0, len(clauses)),
                          rng.choice([[1, 0], [0], [1, "x"], [2, 0, 3],
-                                     [None], [0, 0]])]
+                                     [None], [0, 0], [1.5], [1, 2.0]])]
                         for _ in range(rng.choice([1, 1, 2]))]
     return f
 
@@ -268,6 +271,8 @@ def build_formula(f, ctx):
         for bad in refused.get(i, []):
             if call(F.add_clause, list(bad))[0] == "exc":
                 ctx.fault("refused_insertion_in_history")
+        if f.get("bool_literals"):
+            c = [True if l == 1 else l for l in c]
         F.add_clause(list(c))
     for bad in refused.get(len(f["clauses"]), []):
         if call(F.add_clause, list(bad))[0] == "exc":
